@@ -528,7 +528,9 @@ def execute_queries(
             mapped = _map_query_error(e, sql_query)
             if mapped is not e:
                 raise mapped from e
-            raise
+            # No specific mapping: still surface a VTL error, not the raw DuckDB one.
+            first_line = str(e).strip().split("\n", 1)[0]
+            raise RunTimeError("2-1-1-1", op=result_name, error=first_line) from e
         except Exception:
             raise
 
